@@ -545,6 +545,23 @@ fn api_err_json(e: &ApiErr) -> String {
     }
 }
 
+/// a source that hands out at most `chunk` bytes per read call (0: as much as asked for)
+pub struct Chunked {
+    inner: std::io::Cursor<Vec<u8>>,
+    chunk: usize,
+}
+impl Chunked {
+    fn new(x: Vec<u8>, chunk: usize) -> Chunked {
+        Chunked { inner: std::io::Cursor::new(x), chunk }
+    }
+}
+impl std::io::Read for Chunked {
+    fn read(&mut self, buf: &mut [u8]) -> std::io::Result<usize> {
+        let n = if self.chunk == 0 { buf.len() } else { buf.len().min(self.chunk) };
+        self.inner.read(&mut buf[..n])
+    }
+}
+
 #[derive(Clone)]
 pub struct ApiCase {
     pub api: String,
@@ -560,6 +577,8 @@ pub struct ApiCase {
     pub slow_consumer: bool,
     /// long input (many batches, large recycled vectors): consumer calls are not logged, only counted
     pub big: bool,
+    /// bytes per read call of the source (0 = unlimited)
+    pub chunk: usize,
     /// for long inputs: what the input consists of, [kind, n]: kind 0 = n records with one base, kind 1 = one record with n bases
     pub pattern: Vec<(usize, usize)>,
 }
@@ -569,6 +588,7 @@ macro_rules! api_runner {
         fn $fname(c: &ApiCase, ct: &Arc<Counters>, calls: &Arc<Mutex<Vec<String>>>, works: &Arc<Mutex<Vec<String>>>, ninit: &Arc<(AtomicI64, AtomicI64)>) -> String {
             use seq_io::$m::Record as _;
             let x = c.x.clone();
+            let chunk = c.chunk;
             let cap = c.cap;
             let stop_after = c.stop_after;
             let slow = c.slow_consumer;
@@ -625,7 +645,7 @@ macro_rules! api_runner {
                 let r: Result<Option<usize>, ApiErr> = parallel::$pinit(
                     c.nw,
                     c.q,
-                    move || if rfail { Err(ERi) } else { Ok(seq_io::$m::Reader::with_capacity(std::io::Cursor::new(x), cap)) },
+                    move || if rfail { Err(ERi) } else { Ok(seq_io::$m::Reader::with_capacity(Chunked::new(x, chunk), cap)) },
                     move || {
                         let k = n1.0.fetch_add(1, Ordering::SeqCst) + 1;
                         if k == rf {
@@ -651,7 +671,7 @@ macro_rules! api_runner {
                     Err(e) => api_err_json(&e),
                 }
             } else {
-                let reader = seq_io::$m::Reader::with_capacity(std::io::Cursor::new(x), cap);
+                let reader = seq_io::$m::Reader::with_capacity(Chunked::new(x, chunk), cap);
                 let mut func = func;
                 let r = parallel::$pfn(reader, c.nw, c.q, move |rec: seq_io::$m::RefRecord, d: &mut RecOut| work(rec, d, &mut 0), move |rec: seq_io::$m::RefRecord, d: &mut RecOut| func(rec, d, &mut 0));
                 match r {
@@ -671,7 +691,7 @@ macro_rules! sets_runner {
         /// read_parallel with the real reader as parallel::Reader: the consumer sees whole record sets
         fn $fname(c: &ApiCase, ct: &Arc<Counters>, calls: &Arc<Mutex<Vec<String>>>) -> String {
             use seq_io::$m::Record as _;
-            let reader = seq_io::$m::Reader::with_capacity(std::io::Cursor::new(c.x.clone()), c.cap);
+            let reader = seq_io::$m::Reader::with_capacity(Chunked::new(c.x.clone(), c.chunk), c.cap);
             let ct2 = ct.clone();
             let ct3 = ct.clone();
             let big = c.big;
@@ -745,7 +765,7 @@ macro_rules! records_runner {
         /// parallel_records: the generic per-record function (outputs are passed to the consumer by shared reference)
         fn $fname(c: &ApiCase, ct: &Arc<Counters>, calls: &Arc<Mutex<Vec<String>>>) -> String {
             use seq_io::$m::Record as _;
-            let reader = seq_io::$m::Reader::with_capacity(std::io::Cursor::new(c.x.clone()), c.cap);
+            let reader = seq_io::$m::Reader::with_capacity(Chunked::new(c.x.clone(), c.chunk), c.cap);
             let ct2 = ct.clone();
             let ct3 = ct.clone();
             let big = c.big;
@@ -862,7 +882,8 @@ fn run_api(c: &ApiCase, seed: u64) -> String {
     let count = |t: &str, p: &str| -> usize { g.logs.iter().filter(|(n, _)| n.starts_with(t)).map(|(_, e)| e.iter().filter(|v| v["p"] == p).count()).sum() };
     let calls_v = calls.lock().unwrap();
     format!(
-        "{{\"ev\":\"run\",\"big\":{},\"api\":\"{}\",\"fmt\":\"{}\",\"input\":{},\"cap\":{},\"NW\":{},\"Q\":{},\"stop_after\":{},\"rinit_fail\":{},\"recinit_fail_at\":{},\"setinit_fail_at\":{},\"result\":{},\"set_sizes\":{:?},\"calls\":[{}],\"ncalls\":{},\"nbad\":{},\"lead\":{},\"maxsetcap\":{},\"ndefault\":{},\"nworks\":{},\"nrecinit\":{},\"nsetinit\":{},\"fills_ok\":{},\"senderr\":{},\"sendend\":{},\"recv_ok\":{},\"jobs_started\":{},\"jobs_finished\":{},\"late_events\":{}}}",
+        "{{\"ev\":\"run\",\"chunk\":{},\"big\":{},\"api\":\"{}\",\"fmt\":\"{}\",\"input\":{},\"cap\":{},\"NW\":{},\"Q\":{},\"stop_after\":{},\"rinit_fail\":{},\"recinit_fail_at\":{},\"setinit_fail_at\":{},\"result\":{},\"set_sizes\":{:?},\"calls\":[{}],\"ncalls\":{},\"nbad\":{},\"lead\":{},\"maxsetcap\":{},\"ndefault\":{},\"nworks\":{},\"nrecinit\":{},\"nsetinit\":{},\"fills_ok\":{},\"senderr\":{},\"sendend\":{},\"recv_ok\":{},\"jobs_started\":{},\"jobs_finished\":{},\"late_events\":{}}}",
+        c.chunk,
         c.big,
         c.api,
         c.fmt,
@@ -942,6 +963,7 @@ pub fn cmd_api(suite: &Value, out: &str, seed: u64) {
             setinit_fail_at: if faults && api.ends_with("_init") && rng.chance(1, 5) { 1 + rng.below(5) } else { 0 },
             slow_consumer: rng.chance(1, 3),
             big: false,
+            chunk: *rng.pick(&[0usize, 0, 0, 1, 7, 100]),
             pattern: vec![],
             x,
         };
@@ -972,6 +994,7 @@ pub fn cmd_api(suite: &Value, out: &str, seed: u64) {
             c.pattern = pat;
             c.x = x;
             c.big = true;
+            c.chunk = *rng.pick(&[0usize, 1000, 8192]);
             c.api = match i % 4 { 0 => "parallel_init".into(), 1 => "read_parallel".into(), 2 => "records".into(), _ => "parallel".into() };
             c.cap = 8192;
             c.stop_after = 0;
